@@ -664,8 +664,7 @@ Proof.
   rewrite sqrt_Rsqr_abs. apply isclose_refl.
 Qed.
 
-Lemma move_probe_recovers fit xs th z0 dead tx rx ds :
-  is_ls_minimiser fit ->
+Lemma move_probe_recovers_closed xs th z0 dead tx rx ds :
   - (PI / 2) <= th <= PI / 2 ->
   length tx = length rx -> length ds = length tx ->
   (2 <= length (selected dead tx rx ds))%nat ->
@@ -673,13 +672,13 @@ Lemma move_probe_recovers fit xs th z0 dead tx rx ds :
      (0 <= tr_tx t < Z.of_nat (length xs))%Z /\ tr_d t = sin th * trace_x xs t - z0 /\ 0 <= tr_d t) ->
   isclose NumR (lmin NumR (map (trace_x xs) (selected dead tx rx ds)))
                (lmax NumR (map (trace_x xs) (selected dead tx rx ds))) = false ->
-  move_probe NumR fit (gcs NumR) tx rx dead (on_axis xs) ds
+  move_probe NumR (fit_line NumR) (gcs NumR) tx rx dead (on_axis xs) ds
   = inr (mkMove z0 th
                 (map (fun x => (cos th * x, 0, - (sin th * x - z0))) xs)
                 ((0, 0, z0), (cos th, 0, - sin th), (0, 1, 0))).
 Proof.
-  intros Hfit Hth L1 L2 Hn Hsel Hspread.
-  rewrite (move_probe_oracle fit) by exact Hfit. rewrite move_probe_factor.
+  intros Hth L1 L2 Hn Hsel Hspread.
+  rewrite move_probe_factor.
   rewrite <- (selected_length dead tx rx ds L1 L2).
   set (sel := selected dead tx rx ds) in *.
   unfold move_tail. cbv zeta.
@@ -716,6 +715,82 @@ Proof.
     cbn [fst snd nadd nsub nmul nopp nsin ncos n0 n1 NumR].
     repeat match goal with |- (_, _) = (_, _) => f_equal end; ring.
 Qed.
+
+Lemma move_probe_recovers fit xs th z0 dead tx rx ds :
+  is_ls_minimiser fit ->
+  - (PI / 2) <= th <= PI / 2 ->
+  length tx = length rx -> length ds = length tx ->
+  (2 <= length (selected dead tx rx ds))%nat ->
+  (forall t, In t (selected dead tx rx ds) ->
+     (0 <= tr_tx t < Z.of_nat (length xs))%Z /\ tr_d t = sin th * trace_x xs t - z0 /\ 0 <= tr_d t) ->
+  isclose NumR (lmin NumR (map (trace_x xs) (selected dead tx rx ds)))
+               (lmax NumR (map (trace_x xs) (selected dead tx rx ds))) = false ->
+  move_probe NumR fit (gcs NumR) tx rx dead (on_axis xs) ds
+  = inr (mkMove z0 th
+                (map (fun x => (cos th * x, 0, - (sin th * x - z0))) xs)
+                ((0, 0, z0), (cos th, 0, - sin th), (0, 1, 0))).
+Proof.
+  intros Hfit Hth L1 L2 Hn Hsel Hspread. rewrite (move_probe_oracle fit) by exact Hfit.
+  apply move_probe_recovers_closed; assumption.
+Qed.
+
+(* ------------------------------------------------------------------------- *)
+(* the oracle hypothesis is satisfiable: a total least-squares minimiser       *)
+(* ------------------------------------------------------------------------- *)
+Definition fit_total (xs ds : list R) : R * R :=
+  let ps := combine xs ds in
+  if Req_bool (Den ps) 0 then (0, Sy ps / Sn ps) else fit_pairs ps.
+
+Lemma all_same_sums ps m : (forall p, In p ps -> fst p = m) ->
+  Sx ps = Sn ps * m /\ Sxx ps = Sn ps * (m * m) /\ Sxy ps = m * Sy ps.
+Proof.
+  unfold Sx, Sxx, Sxy, Sy, Sn. induction ps as [| p ps IH]; intro H; cbn [map rsum length].
+  - cbn. repeat split; ring.
+  - rewrite S_INR. destruct IH as [E1 [E2 E3]]; [intros q Hq; apply H; right; exact Hq|].
+    rewrite E1, E2, E3, (H p (or_introl eq_refl)). repeat split; ring.
+Qed.
+
+Lemma fit_total_is_ls_minimiser : is_ls_minimiser fit_total.
+Proof.
+  intros xs ds a b HL. unfold sse, fit_total. set (ps := combine xs ds).
+  destruct (Req_bool_spec (Den ps) 0) as [HD | HD].
+  - cbn [fst snd]. destruct ps as [| p0 ps'] eqn:Eps.
+    + unfold sse_pairs. cbn. lra.
+    + rewrite <- Eps in *. assert (ps <> []) as Hnil by (rewrite Eps; discriminate).
+      pose proof (Sn_pos ps Hnil) as Hn.
+      set (m := Sx ps / Sn ps).
+      assert (forall p, In p ps -> fst p = m) as Hsame.
+      { assert (Sn ps * rsum (map (fun p => (fst p - m) * (fst p - m)) ps) = 0) as HZ.
+        { rewrite sum_sq_dev. rewrite <- HD. unfold Den, m. field. lra. }
+        apply Rmult_integral in HZ. destruct HZ as [HZ | HZ]; [lra|].
+        intros p Hp.
+        assert ((fst p - m) * (fst p - m) = 0) as Hsq.
+        { apply (rsum_zero_all _ ltac:(intros y Hy; apply in_map_iff in Hy; destruct Hy as [q [<- _]]; apply Rle_0_sqr) HZ).
+          apply in_map_iff. exists p. split; [reflexivity | exact Hp]. }
+        apply Rmult_integral in Hsq. lra. }
+      destruct (all_same_sums ps m Hsame) as [E1 [E2 E3]].
+      rewrite !sse_expand, E1, E2, E3.
+      assert (Syy ps - 2 * a * (m * Sy ps) - 2 * b * Sy ps + a * a * (Sn ps * (m * m)) + 2 * a * b * (Sn ps * m) + Sn ps * (b * b)
+              - (Syy ps - 2 * 0 * (m * Sy ps) - 2 * (Sy ps / Sn ps) * Sy ps + 0 * 0 * (Sn ps * (m * m))
+                 + 2 * 0 * (Sy ps / Sn ps) * (Sn ps * m) + Sn ps * (Sy ps / Sn ps * (Sy ps / Sn ps)))
+              = Sn ps * ((a * m + b - Sy ps / Sn ps) * (a * m + b - Sy ps / Sn ps))) as HE by (field; lra).
+      assert (0 <= Sn ps * ((a * m + b - Sy ps / Sn ps) * (a * m + b - Sy ps / Sn ps)))
+        by (apply Rmult_le_pos; [lra | apply Rle_0_sqr]).
+      lra.
+  - assert (ps <> []) as Hnil.
+    { intro E. apply HD. rewrite E. unfold Den, Sn, Sx, Sxx. cbn. ring. }
+    pose proof (Sn_pos ps Hnil) as Hn.
+    assert (0 <= Den ps) as Hge.
+    { set (m := Sx ps / Sn ps).
+      assert (Den ps = Sn ps * rsum (map (fun p => (fst p - m) * (fst p - m)) ps)) as ->
+          by (rewrite sum_sq_dev; unfold Den, m; field; lra).
+      apply Rmult_le_pos; [lra|]. apply rsum_nonneg. intros y Hy. apply in_map_iff in Hy.
+      destruct Hy as [q [<- _]]. apply Rle_0_sqr. }
+    apply fit_pairs_minimises; [lra | exact Hnil].
+Qed.
+
+Lemma ls_minimiser_exists : exists fit, is_ls_minimiser fit.
+Proof. exists fit_total. exact fit_total_is_ls_minimiser. Qed.
 
 (* non-degeneracy of the normal equations, on the abscissae alone *)
 Lemma den_pos_xs xs x1 x2 : In x1 xs -> In x2 xs -> x1 <> x2 ->
